@@ -318,6 +318,53 @@ func genC13() {
 				fail("%s: buildImage calls %s %d times (expected once)", bi, must, seen[must])
 			}
 		}
+		// the guard of the accounts step: `if <cfg>.Contents.BaseImage == nil { ... mutateAccounts(...) ... }` — found by
+		// shape (the innermost if whose body holds the call; the condition may be written either way round or through a
+		// local boolean); no guard at all is reported as such, any other condition breaks the tie
+		guard := "none"
+		var stack []ast.Node
+		ast.Inspect(fd, func(n ast.Node) bool {
+			if n == nil {
+				stack = stack[:len(stack)-1]
+				return true
+			}
+			stack = append(stack, n)
+			c, ok := n.(*ast.CallExpr)
+			if !ok {
+				return true
+			}
+			if id, ok := c.Fun.(*ast.Ident); !ok || id.Name != "mutateAccounts" {
+				return true
+			}
+			for i := len(stack) - 1; i >= 0; i-- {
+				is, ok := stack[i].(*ast.IfStmt)
+				if !ok || i+1 >= len(stack) || stack[i+1] != ast.Node(is.Body) {
+					continue // not in the then-branch of this if (e.g. the `if err := mutateAccounts(...)` itself)
+				}
+				cond := is.Cond
+				if id, ok := cond.(*ast.Ident); ok {
+					if d := c13FindDefine(fd, id.Name); d != nil {
+						cond = d
+					}
+				}
+				be, ok := cond.(*ast.BinaryExpr)
+				x, y := ast.Expr(nil), ast.Expr(nil)
+				if ok {
+					x, y = be.X, be.Y
+					if exprText(x) == "nil" {
+						x, y = y, x
+					}
+				}
+				if ok && be.Op == token.EQL && exprText(y) == "nil" && c13IsField(x, "BaseImage") {
+					guard = "no-base-image"
+				} else {
+					fail("%s: buildImage: mutateAccounts is guarded by a condition that is not `<cfg>.Contents.BaseImage == nil`: %s", bi, exprText(is.Cond))
+				}
+				break
+			}
+			return true
+		})
+		g.def("accounts_skipped_with_base_image", "bool", fmt.Sprint(guard == "no-base-image"), "buildImage: mutateAccounts runs only when Contents.BaseImage == nil")
 		g.def("build_image_steps", "list string", "["+c13JoinSemi(steps)+"]", "calls of buildImage in source order at "+g.pos(fd))
 	}
 	// fix 4aa2cd2: GroupEntry.Parse leaves Members nil for an empty member field (guard parts[3] != "")
